@@ -45,6 +45,19 @@ Qed.
 Lemma settle_none g puts : settle g None puts = (g, None).
 Proof. induction puts as [|b puts IH]; simpl; auto. Qed.
 
+(* a property of the live and the pending group survives the switches *)
+Lemma settle_keeps (R : grp -> Prop) puts : forall g pend,
+  R g -> (forall tg g', pend = Some (tg, g') -> R g') ->
+  R (fst (settle g pend puts)) /\ forall tg g', snd (settle g pend puts) = Some (tg, g') -> R g'.
+Proof.
+  induction puts as [|b puts IH]; intros g pend Hg Hp; simpl; [split; assumption|].
+  destruct pend as [[t0 g0]|].
+  - destruct (t0 <=? b_round b).
+    + apply IH; [exact (Hp t0 g0 eq_refl)|intros ? ? E; discriminate].
+    + apply IH; assumption.
+  - apply IH; assumption.
+Qed.
+
 (* ---------- what one node step does to the cache, the group, and why it stores ---------- *)
 Section NetEff.
   Variable C : cfg.
@@ -68,7 +81,7 @@ Section NetEff.
   Notation fire_due := (fire_due C idx_of recov vrec own_psig).
 
   Variable Q : wire -> Prop.          (* "is on the wire" *)
-  Variable g : grp.                   (* the node's live group *)
+  Variable thr_of : Z -> Z.           (* the threshold of the sharing a public polynomial identifies *)
   Variable stream : list beacon.      (* what the peers serve if the step syncs *)
 
   Definition cache_in (c : list centry) : Prop :=
@@ -107,26 +120,39 @@ Section NetEff.
   Lemma after_put_cache s b : s_cache (after_put s b) = cache_flush (s_cache s) (b_round b).
   Proof. unfold after_put. destruct (s_pending s) as [[t' g']|]; [destruct (t' <=? b_round b)|]; reflexivity. Qed.
 
-  (* the justification of a stored beacon *)
+  (* the live group, and a pending one, carry the threshold of their sharing *)
+  Definition okgrp (g : grp) : Prop := g_thr g = thr_of (g_poly g).
+  Definition grp_ok (s : nstate) : Prop :=
+    okgrp (s_grp s) /\ forall tg g', s_pending s = Some (tg, g') -> okgrp g'.
+
+  Lemma tracks_grp_ok s s' o : tracks s s' o -> grp_ok s -> grp_ok s'.
+  Proof.
+    unfold tracks, gp. intros T [G1 G2].
+    destruct (settle_keeps okgrp (proj_puts o) (s_grp s) (s_pending s) G1 G2) as [A B].
+    rewrite <- T in A, B. split; [exact A|exact B].
+  Qed.
+
+  (* the justification of a stored beacon: a threshold of valid partials of ONE sharing *)
   Definition contributed_by (b : beacon) : Prop :=
-    exists p I, NoDup (map idx_of I) /\ g_thr g <= Z.of_nat (length I) /\
-      forall x, In x I -> Q (b_round b, p, x) /\ vpart (g_poly g) (b_round b) p x = true.
+    exists P p I, NoDup (map idx_of I) /\ thr_of P <= Z.of_nat (length I) /\
+      forall x, In x I -> Q (b_round b, p, x) /\ vpart P (b_round b) p x = true.
   Definition served (b : beacon) : Prop :=
     exists b0, In b0 stream /\ vrec (b_round b0) (b_prev b0) (b_sig b0) = true /\ b_round b0 = b_round b.
   Definition just (b : beacon) : Prop := contributed_by b \/ served b.
 
-  Definition pre (s : nstate) : Prop := cache_in (s_cache s) /\ gp s = (g, None).
+  Definition pre (s : nstate) : Prop := cache_in (s_cache s) /\ grp_ok s.
   Definition post (s s' : nstate) (o : list out) : Prop :=
-    cache_in (s_cache s') /\ gp s' = (g, None) /\ s_now s' = s_now s /\
+    cache_in (s_cache s') /\ grp_ok s' /\ s_now s' = s_now s /\
     (forall b, In (OPut b) o -> just b) /\
     (forall r p sg n, In (OEmit r p sg n) o -> n = s_now s).
 
-  Lemma post_nop s s' : cache_in (s_cache s') -> gp s' = (g, None) -> s_now s' = s_now s -> post s s' [].
-  Proof. intros A B D. repeat split; try assumption; intros; contradiction. Qed.
+  Lemma post_nop s s' : cache_in (s_cache s') -> grp_ok s' -> s_now s' = s_now s -> post s s' [].
+  Proof. intros A B D. split; [exact A|]. split; [exact B|]. split; [exact D|]. split; intros; contradiction. Qed.
 
   Lemma post_trans s s1 s2 o1 o2 : post s s1 o1 -> post s1 s2 o2 -> post s s2 (o1 ++ o2).
   Proof.
-    intros [A1 [B1 [N1 [P1 E1]]]] [A2 [B2 [N2 [P2 E2]]]]. repeat split; try assumption.
+    intros [A1 [B1 [N1 [P1 E1]]]] [A2 [B2 [N2 [P2 E2]]]].
+    split; [exact A2|]. split; [exact B2|]. split; [|split].
     - congruence.
     - intros b Hb. apply in_app_or in Hb as [Hb|Hb]; auto.
     - intros r p sg n Hn. apply in_app_or in Hn as [Hn|Hn]; [eauto|]. rewrite <- N1. eauto.
@@ -135,7 +161,7 @@ Section NetEff.
   Lemma post_cons s s' x o : post s s' o -> (forall b, x <> OPut b) -> (forall r p sg n, x = OEmit r p sg n -> n = s_now s) ->
     post s s' (x :: o).
   Proof.
-    intros [A [B [N [Pp E]]]] Hx He. repeat split; try assumption.
+    intros [A [B [N [Pp E]]]] Hx He. split; [exact A|]. split; [exact B|]. split; [exact N|]. split.
     - intros b [Hb|Hb]; [exfalso; eapply Hx; exact Hb|auto].
     - intros r p sg n [Hn|Hn]; [eapply He; exact Hn|eauto].
   Qed.
@@ -143,9 +169,8 @@ Section NetEff.
   Lemma agg_eff s r p sg s' o : agg_partial s r p sg = (s', o) -> pre s -> Q (r, p, sg) -> post s s' o.
   Proof.
     intros H [Hc Hg] Hq.
-    assert (Hgp : gp s' = (g, None)).
-    { pose proof (agg_tracks C idx_of recov vrec _ _ _ _ _ _ H) as T. unfold tracks in T.
-      unfold gp in Hg. injection Hg as G1 G2. rewrite T, G1, G2. apply settle_none. }
+    assert (Hgp : grp_ok s').
+    { eapply tracks_grp_ok; [|exact Hg]. exact (agg_tracks C idx_of recov vrec _ _ _ _ _ _ H). }
     assert (Hnow : s_now s' = s_now s) by (eapply agg_now; exact H).
     assert (Hem : forall r0 p0 sg0 n, In (OEmit r0 p0 sg0 n) o -> n = s_now s).
     { intros r0 p0 sg0 n Hin. pose proof H as Hn. apply agg_no_emit in Hn.
@@ -154,7 +179,7 @@ Section NetEff.
     { intros b Hb. apply in_split in Hb as [o1 [o2 ->]].
       destruct (agg_put_has_threshold C idx_of vpart recov vrec vrec_unchained recov_sound _ _ _ _ _ _ _ _ H)
         as [e [I [Hf [Hi [Hn [Ht [Hv [Hr _]]]]]]]].
-      left. exists p, I. unfold gp in Hg. injection Hg as G1 G2. rewrite <- G1.
+      left. exists (g_poly (s_grp s)), p, I. destruct Hg as [G1 _]. unfold okgrp in G1. rewrite <- G1.
       split; [exact Hn|]. split; [exact Ht|]. intros x Hx. rewrite Hr. split; [|apply Hv; exact Hx].
       apply cache_find_in in Hf as [He [Er Ep]].
       apply Hi in Hx. apply in_map_iff in Hx as [isg [Es Hisg]].
@@ -179,7 +204,7 @@ Section NetEff.
       2:{ inversion H; subst. cbn [s_cache]. apply cache_flush_in; exact Hc1. }
       destruct (r <? s_cur s); inversion H; subst; cbn [s_cache]; rewrite ?after_put_cache; cbn [s_cache];
         repeat apply cache_flush_in; exact Hc1. }
-    repeat split; assumption.
+    split; [exact Hcache|]. split; [exact Hgp|]. split; [exact Hnow|]. split; [exact Hput|exact Hem].
   Qed.
 
   Lemma emit_eff s cur upon s' o : emit_on s cur upon = (s', o) -> pre s ->
@@ -202,8 +227,7 @@ Section NetEff.
     assert (P1 : post s (after_put s (stored_form C b)) [OPut (stored_form C b)]).
     { split; [|split; [|split; [|split]]].
       - rewrite after_put_cache. apply cache_flush_in; exact Hc.
-      - pose proof (after_put_settle s (stored_form C b)) as Hs. unfold gp in *. injection Hg as G1 G2.
-        rewrite Hs, G1, G2. reflexivity.
+      - apply (tracks_grp_ok s _ [OPut (stored_form C b)]); [|exact Hg]. unfold tracks, gp. cbn [proj_puts]. apply after_put_settle.
       - destruct (after_put_fields s (stored_form C b)) as [F1 _]. exact F1.
       - intros b' [Hb|[]]. inversion Hb; subst. right. exists b. split; [apply Hin; left; reflexivity|].
         split; [exact Hv|]. unfold stored_form. destruct (c_chained C); reflexivity.
@@ -242,7 +266,10 @@ Section NetEff.
   Qed.
 
   Lemma post_from s0 s s' o : s_now s0 = s_now s -> post s0 s' o -> post s s' o.
-  Proof. intros E [A [B [N [Pp Ee]]]]. repeat split; try assumption; [congruence|]. intros; rewrite <- E; eauto. Qed.
+  Proof.
+    intros E [A [B [N [Pp Ee]]]]. split; [exact A|]. split; [exact B|]. split; [congruence|]. split; [exact Pp|].
+    intros; rewrite <- E; eauto.
+  Qed.
 
   Lemma fire_due_eff s s' o : fire_due s = (s', o) -> pre s -> (forall w, In w (emits_of o) -> Q w) -> post s s' o.
   Proof.
@@ -257,6 +284,7 @@ Section NetEff.
     | EFire | EStop => True
     | ETick _ sy | ETickSF _ sy | ERestart sy => forall bs, sy = Some bs -> incl bs stream
     | EPart r p sg => Q (r, p, sg)
+    | ETransition _ g' => okgrp g'
     | _ => False
     end.
 
@@ -305,9 +333,12 @@ Section NetEff.
       destruct (negb (vpart _ _ _ _)). { inversion H; subst. exact Rej. }
       eapply agg_eff; eauto.
     - inversion H; subst. apply post_nop; [intros e []|exact Hg|reflexivity].
-    - unfold gp in Hg. injection Hg as G1 G2. rewrite G2 in H.
-      eapply post_from; [|eapply do_sync_eff; [exact H|exact Hin|]]; [reflexivity|].
-      split; [intros e []|]. unfold gp; cbn [s_grp s_pending]. rewrite G1. reflexivity.
+    - eapply post_from; [|eapply do_sync_eff; [exact H|exact Hin|]]; [reflexivity|].
+      split; [intros e []|]. destruct Hg as [G1 G2]. split; cbn [s_grp s_pending]; [|intros ? ? E; discriminate].
+      destruct (s_pending s) as [[t0 g0]|]; [exact (G2 t0 g0 eq_refl)|exact G1].
+    - inversion H; subst. apply post_nop; [exact Hc| |reflexivity].
+      destruct Hg as [G1 _]. split; cbn [s_grp s_pending]; [exact G1|].
+      intros tg0 g0 E. inversion E; subst. exact Hin.
   Qed.
 End NetEff.
 
@@ -356,9 +387,10 @@ Section NetSys.
   Hypothesis Hp : dom_p (c_period C).
   Hypothesis Hg : dom_g (c_genesis C).
 
-  Variable F : list Z.            (* the share indices the adversary can sign with *)
-  Variable P t : Z.               (* the group's public polynomial and threshold *)
-  Hypothesis F_small : Z.of_nat (length F) < t.
+  (* sharings of the group secret are identified by their public polynomial (one per epoch) *)
+  Variable thr_of : Z -> Z.       (* the threshold of a sharing *)
+  Variable F_of : Z -> list Z.    (* the share indices of that sharing the adversary can sign with *)
+  Hypothesis F_small : forall P, Z.of_nat (length (F_of P)) < thr_of P.
   Variable gen : beacon.          (* the genesis beacon *)
   Hypothesis gen_round : b_round gen = 0.
 
@@ -369,10 +401,10 @@ Section NetSys.
 
   Definition on_wire (y : sys) (w : wire) : Prop := In w (y_pool y).
 
-  (* valid partials of at least t distinct indices for exactly round r (and one previous
-     signature) are on the wire *)
+  (* valid partials of ONE sharing, of at least its threshold of distinct indices, for exactly
+     round r (and one previous signature) are on the wire *)
   Definition contributed (y : sys) (r : Z) : Prop :=
-    exists p I, NoDup (map idx_of I) /\ t <= Z.of_nat (length I) /\
+    exists P p I, NoDup (map idx_of I) /\ thr_of P <= Z.of_nat (length I) /\
       forall x, In x I -> In (r, p, x) (y_pool y) /\ vpart P r p x = true.
 
   (* symbolic unforgeability of the group signature: a beacon that verifies can be served only
@@ -387,6 +419,7 @@ Section NetSys.
     | ETick rho sy | ETickSF rho sy => rho = cr C (y_time y) /\ stream_ok y sy   (* the ticker reads the clock *)
     | ERestart sy => stream_ok y sy
     | EPart r p sg => In (r, p, sg) (y_pool y)
+    | ETransition _ g' => okgrp thr_of g'       (* a completed resharing hands the node its new group *)
     | _ => False
     end.
 
@@ -398,7 +431,8 @@ Section NetSys.
     | GDeliver j w => In w (y_pool y)
     (* symbolic unforgeability of partial signatures: a valid partial of an index outside F
        can only be replayed *)
-    | GAdvPartial (r, p, sg) => vpart P r p sg = true -> ~ In (idx_of sg) F -> In (r, p, sg) (y_pool y)
+    | GAdvPartial (r, p, sg) =>
+        forall P, vpart P r p sg = true -> ~ In (idx_of sg) (F_of P) -> In (r, p, sg) (y_pool y)
     (* ... and of the group signature: a new beacon needs a threshold of partials *)
     | GAdvBeacon b => contributed y (b_round b) \/ exists b', In b' (y_known y) /\ b_round b' = b_round b
     end.
@@ -410,8 +444,7 @@ Section NetSys.
     end.
 
   Definition node_ok (y : sys) (s : nstate) : Prop :=
-    s_now s = y_time y /\ inv4 C s /\ gp s = (s_grp s, None) /\
-    g_poly (s_grp s) = P /\ g_thr (s_grp s) = t /\
+    s_now s = y_time y /\ inv4 C s /\ grp_ok thr_of s /\
     cache_in (on_wire y) (s_cache s) /\
     (forall b, In b (s_chain s) -> b = gen \/ exists b', In b' (y_known y) /\ b_round b' = b_round b) /\
     chain_ok C vrec (s_chain s) /\ s_chain s <> [] /\ genesis_of (s_chain s) = gen.
@@ -420,16 +453,16 @@ Section NetSys.
     now_dom (c_genesis C) (y_time y) /\
     Forall (node_ok y) (y_nodes y) /\
     (forall b, In b (y_known y) -> contributed y (b_round b)) /\
-    (forall r p sg, In (r, p, sg) (y_pool y) -> vpart P r p sg = true -> ~ In (idx_of sg) F ->
+    (forall r p sg P, In (r, p, sg) (y_pool y) -> vpart P r p sg = true -> ~ In (idx_of sg) (F_of P) ->
        r <= cr C (y_time y)).
 
   (* among the contributors of a round one is outside F, and its partial is not early *)
   Lemma contributed_timely y r : sys_inv y -> contributed y r -> r <= cr C (y_time y).
   Proof.
-    intros [_ [_ [_ Hpool]]] [p [I [Hn [Ht Hx]]]].
-    destruct (honest_signer F t F_small (map idx_of I) Hn) as [i [Hi Hf]]; [rewrite map_length; exact Ht|].
+    intros [_ [_ [_ Hpool]]] [P [p [I [Hn [Ht Hx]]]]].
+    destruct (honest_signer (F_of P) (thr_of P) (F_small P) (map idx_of I) Hn) as [i [Hi Hf]]; [rewrite map_length; exact Ht|].
     apply in_map_iff in Hi as [x [E Hxi]]. subst i. destruct (Hx x Hxi) as [Hw Hv].
-    exact (Hpool r p x Hw Hv Hf).
+    exact (Hpool r p x P Hw Hv Hf).
   Qed.
 
   Lemma known_timely y : sys_inv y -> forall b, In b (y_known y) -> b_round b <= cr C (y_time y).
@@ -437,14 +470,14 @@ Section NetSys.
 
   Lemma chain_timely y s : sys_inv y -> node_ok y s -> forall b, In b (s_chain s) -> b_round b <= cr C (y_time y).
   Proof.
-    intros Hi [_ [_ [_ [_ [_ [_ [Hc _]]]]]]] b Hb. destruct (Hc b Hb) as [->|[b' [Hk E]]].
+    intros Hi [_ [_ [_ [_ [Hc _]]]]] b Hb. destruct (Hc b Hb) as [->|[b' [Hk E]]].
     - rewrite gen_round. destruct Hi as [HT _]. pose proof (current_round_ge_1 _ _ _ Hp Hg HT). unfold cr. lia.
     - rewrite <- E. apply known_timely; assumption.
   Qed.
 
   Lemma head_timely y s : sys_inv y -> node_ok y s -> b_round (head s) <= cr C (y_time y).
   Proof.
-    intros Hi Hs. pose proof Hs as [_ [_ [_ [_ [_ [_ [_ [_ [Hne _]]]]]]]]].
+    intros Hi Hs. pose proof Hs as [_ [_ [_ [_ [_ [_ [Hne _]]]]]]].
     apply (chain_timely y s Hi Hs). unfold head. destruct (s_chain s); [contradiction|left; reflexivity].
   Qed.
 
@@ -454,15 +487,14 @@ Section NetSys.
 
   Lemma contributed_ext y y' r : incl (y_pool y) (y_pool y') -> contributed y r -> contributed y' r.
   Proof.
-    intros Hp' [p [I [Hn [Ht Hx]]]]. exists p, I. split; [exact Hn|]. split; [exact Ht|].
+    intros Hp' [P [p [I [Hn [Ht Hx]]]]]. exists P, p, I. split; [exact Hn|]. split; [exact Ht|].
     intros x Hxi. destruct (Hx x Hxi). split; auto.
   Qed.
 
   Lemma node_ok_ext y y' s : ext y y' -> node_ok y s -> node_ok y' s.
   Proof.
-    intros [Et [Ep Ek]] [N1 [N2 [N3 [N4 [N5 [N6 [N7 [N8 [N9 N10]]]]]]]]].
-    repeat (split; [try assumption|]); try assumption.
-    - congruence.
+    intros [Et [Ep Ek]] [N1 [N2 [N3 [N6 [N7 [N8 [N9 N10]]]]]]].
+    split; [congruence|]. split; [exact N2|]. split; [exact N3|]. split; [|split; [|split; [exact N8|split; [exact N9|exact N10]]]].
     - intros e He isg Hi. apply Ep. exact (N6 e He isg Hi).
     - intros b Hb. destruct (N7 b Hb) as [->|[b' [Hk E]]]; [left; reflexivity|right; exists b'; auto].
   Qed.
@@ -483,7 +515,7 @@ Section NetSys.
   Qed.
 
   Lemma ev_input_ok y (Q : wire -> Prop) e : ev_ok y e -> (forall w, In w (y_pool y) -> Q w) ->
-    input_ok Q (ev_stream e) e.
+    input_ok Q thr_of (ev_stream e) e.
   Proof.
     destruct e as [d|d| |rho [bs|]|rho [bs|]|r p sg| |[bs|]|tg g']; simpl; try tauto;
       try (intros _ _ bs' E; inversion E; subst; apply incl_refl); try (intros _ _ bs' E; discriminate).
@@ -507,25 +539,23 @@ Section NetSys.
     set (y' := mkSys (y_time y) (upd (y_nodes y) j s') (y_pool y ++ emits_of o) (y_known y ++ puts_of o)).
     pose proof Hi as [HT [Hn [Hk Hpool]]].
     pose proof (nth_error_Forall _ _ _ _ Hn Hnth) as Hs.
-    pose proof Hs as [N1 [N2 [N3 [N4 [N5 [N6 [N7 [N8 [N9 N10]]]]]]]]].
+    pose proof Hs as [N1 [N2 [N3 [N6 [N7 [N8 [N9 N10]]]]]]].
     assert (Hext : ext y y').
     { split; [reflexivity|]. split; intros x Hx; apply in_or_app; left; exact Hx. }
     pose proof (ev_adm y s e Hi Hs He) as Hadm.
     destruct (step_emits_timely C idx_of vpart recov vrec own_psig Hp Hg _ _ _ _ N2 Hadm E) as [Hi' Het].
-    assert (Hpost : post idx_of vpart vrec (on_wire y') (s_grp s) (ev_stream e) s s' o).
+    assert (Hpost : post idx_of vpart vrec (on_wire y') thr_of (ev_stream e) s s' o).
     { eapply (step_eff C idx_of vpart recov vrec own_psig vrec_unchained recov_sound); [exact E| | |].
       - split; [|exact N3]. intros e0 He0 isg Hisg. apply in_or_app; left. exact (N6 e0 He0 isg Hisg).
       - apply (ev_input_ok y); [exact He|]. intros w Hw. apply in_or_app; left; exact Hw.
       - intros w Hw. apply in_or_app; right; exact Hw. }
     destruct Hpost as [Pc [Pg [Pn [Pp Pe]]]].
     pose proof (step_wf C idx_of vpart recov vrec own_psig vrec_unchained _ _ _ _ E) as [Wc Wp].
-    assert (Egrp : s_grp s' = s_grp s) by (unfold gp in Pg; injection Pg as G1 _; exact G1).
     split; [exact HT|]. split; [|split].
     - apply Forall_upd.
       + rewrite Forall_forall in *. intros x Hx. apply (node_ok_ext y y'); [exact Hext|auto].
-      + unfold node_ok. rewrite Egrp.
-        split; [cbn [y_time y']; congruence|]. split; [exact Hi'|]. split; [exact Pg|].
-        split; [exact N4|]. split; [exact N5|]. split; [exact Pc|].
+      + unfold node_ok.
+        split; [cbn [y_time y']; congruence|]. split; [exact Hi'|]. split; [exact Pg|]. split; [exact Pc|].
         split; [|split; [|split]].
         * intros b Hb. rewrite Wc in Hb. apply in_app_or in Hb as [Hb|Hb].
           -- right. exists b. split; [|reflexivity]. apply in_or_app; right. rewrite puts_of_eq. apply in_rev; exact Hb.
@@ -538,13 +568,12 @@ Section NetSys.
         * rewrite Wc. unfold genesis_of. rewrite last_app_ne; [exact N10|exact N9].
     - intros b Hb. apply in_app_or in Hb as [Hb|Hb].
       + apply (contributed_ext y y'); [apply Hext|exact (Hk b Hb)].
-      + rewrite puts_of_eq in Hb. apply in_put_proj in Hb. destruct (Pp b Hb) as [[p [I [Hnd [Ht Hx]]]]|[b0 [Hb0 [Hv Er]]]].
-        * exists p, I. split; [exact Hnd|]. split; [rewrite <- N5; exact Ht|].
-          intros x Hxi. destruct (Hx x Hxi) as [Hq Hvp]. split; [exact Hq|rewrite <- N4; exact Hvp].
+      + rewrite puts_of_eq in Hb. apply in_put_proj in Hb. destruct (Pp b Hb) as [[P [p [I [Hnd [Ht Hx]]]]]|[b0 [Hb0 [Hv Er]]]].
+        * exists P, p, I. split; [exact Hnd|]. split; [exact Ht|]. exact Hx.
         * destruct (ev_stream_known y e He b0 Hb0 Hv) as [b' [Hkb Eb]].
           apply (contributed_ext y y'); [apply Hext|]. rewrite <- Er, <- Eb. exact (Hk b' Hkb).
-    - intros r p sg Hw Hv Hf. cbn [y_pool y_time y'] in *. apply in_app_or in Hw as [Hw|Hw].
-      + exact (Hpool r p sg Hw Hv Hf).
+    - intros r p sg P Hw Hv Hf. cbn [y_pool y_time y'] in *. apply in_app_or in Hw as [Hw|Hw].
+      + exact (Hpool r p sg P Hw Hv Hf).
       + apply emits_of_in in Hw as [n Hn']. specialize (Het _ _ _ _ Hn'). rewrite (Pe _ _ _ _ Hn'), N1 in Het. exact Het.
   Qed.
 
@@ -557,14 +586,14 @@ Section NetSys.
       { unfold cr. apply current_round_mono; try assumption. lia. }
       split; [exact Hnd|]. split; [|split].
       + rewrite Forall_forall in *. intros s' Hs'. apply in_map_iff in Hs' as [s [<- Hs]].
-        destruct (Hn s Hs) as [N1 [N2 [N3 [N4 [N5 [N6 [N7 [N8 [N9 N10]]]]]]]]].
+        destruct (Hn s Hs) as [N1 [N2 [N3 [N6 [N7 [N8 [N9 N10]]]]]]].
         unfold node_ok. cbn [y_time y_pool y_known advance_clock s_now s_grp s_cache s_chain].
         split; [congruence|]. split.
         { apply advance_inv4; [exact Hp|exact Hg|exact N2|exact Hd|]. unfold now_ok. rewrite N1. exact Hnd. }
-        split; [exact N3|]. split; [exact N4|]. split; [exact N5|]. split; [exact N6|].
+        split; [exact N3|]. split; [exact N6|].
         split; [exact N7|]. split; [exact N8|]. split; [exact N9|exact N10].
       + intros b Hb. exact (Hk b Hb).
-      + intros r p sg Hw Hv Hf. cbn [y_pool y_time] in *. specialize (Hpool r p sg Hw Hv Hf). lia.
+      + intros r p sg P Hw Hv Hf. cbn [y_pool y_time] in *. specialize (Hpool r p sg P Hw Hv Hf). lia.
     - destruct (nth_error (y_nodes y) j) as [s|] eqn:Hnth.
       + eapply node_step_inv; [exact Hi|exact Hnth|]. destruct e; try exact Ha; contradiction.
       + unfold Net.node_step. rewrite Hnth. exact Hi.
@@ -577,9 +606,9 @@ Section NetSys.
       split; [exact HT|]. split; [|split].
       + rewrite Forall_forall in *. intros s Hs. apply (node_ok_ext y y'); [exact Hext|auto].
       + intros b Hb. apply (contributed_ext y y'); [apply Hext|exact (Hk b Hb)].
-      + intros r0 p0 sg0 Hw Hv Hf. cbn [y_pool y_time y'] in *. apply in_app_or in Hw as [Hw|[Hw|[]]].
-        * exact (Hpool _ _ _ Hw Hv Hf).
-        * inversion Hw; subst. exact (Hpool _ _ _ (Ha Hv Hf) Hv Hf).
+      + intros r0 p0 sg0 P Hw Hv Hf. cbn [y_pool y_time y'] in *. apply in_app_or in Hw as [Hw|[Hw|[]]].
+        * exact (Hpool _ _ _ P Hw Hv Hf).
+        * inversion Hw; subst. exact (Hpool _ _ _ P (Ha P Hv Hf) Hv Hf).
     - destruct Hi as [HT [Hn [Hk Hpool]]].
       set (y' := mkSys (y_time y) (y_nodes y) (y_pool y) (y_known y ++ [b])).
       assert (Hext : ext y y') by (split; [reflexivity|]; split; [apply incl_refl|intros x Hx; apply in_or_app; left; exact Hx]).
@@ -591,6 +620,49 @@ Section NetSys.
       + exact Hpool.
   Qed.
 
+  (* the executable admissibility check of the correspondence driver is sound *)
+  Lemma wire_eqb_eq a b : wire_eqb a b = true -> a = b.
+  Proof.
+    destruct a as [[a1 a2] a3], b as [[b1 b2] b3]. unfold wire_eqb. intros H.
+    apply andb_true_iff in H as [H H3]. apply andb_true_iff in H as [H1 H2].
+    apply Z.eqb_eq in H1, H2, H3. subst. reflexivity.
+  Qed.
+
+  Variable polys : list Z.        (* the sharings that exist: no partial verifies under anything else *)
+  Hypothesis vpart_polys : forall P r p sg, vpart P r p sg = true -> In P polys.
+
+  Lemma gadm_b_sound y g : gadm_b C idx_of vpart thr_of F_of polys y g = true -> gadm y g.
+  Proof.
+    destruct g as [d|j e|j w|[[r p] sg]|b]; simpl; intros H.
+    - apply andb_true_iff in H as [H1 H2]. split; [apply Z.leb_le; exact H1|].
+      unfold now_dom_b in H2. unfold now_dom, dom_t. apply orb_true_iff in H2 as [H2|H2].
+      + left. apply Z.ltb_lt; exact H2.
+      + right. apply andb_true_iff in H2 as [A B]. apply Z.leb_le in A, B. split; assumption.
+    - destruct e as [d|d| |rho [bs|]|rho [bs|]|r p sg| |[bs|]|tg g']; simpl; try discriminate; try exact I.
+      + split; [unfold cr; apply Z.eqb_eq; exact H|]. intros bs E; discriminate.
+      + split; [unfold cr; apply Z.eqb_eq; exact H|]. intros bs E; discriminate.
+      + unfold okgrp. apply Z.eqb_eq; exact H.
+    - apply existsb_exists in H as [x [Hx E]]. apply wire_eqb_eq in E. subst; exact Hx.
+    - intros P Hv Hf. apply orb_true_iff in H as [H|H].
+      + rewrite forallb_forall in H. specialize (H P (vpart_polys _ _ _ _ Hv)).
+        rewrite Hv in H. simpl in H. apply negb_true_iff in H. apply negb_false_iff in H.
+        apply existsb_exists in H as [x [Hx E]]. apply Z.eqb_eq in E. subst. contradiction.
+      + apply existsb_exists in H as [x [Hx E]]. apply wire_eqb_eq in E. subst; exact Hx.
+    - discriminate.
+  Qed.
+
+  Fixpoint gadm_b_run (y : sys) (gs : list gevent) : bool :=
+    match gs with
+    | [] => true
+    | g :: gs' => gadm_b C idx_of vpart thr_of F_of polys y g && gadm_b_run (gstep y g) gs'
+    end.
+
+  Lemma gadm_b_run_sound gs : forall y, gadm_b_run y gs = true -> gadm_run y gs.
+  Proof.
+    induction gs as [|g gs IH]; intros y H; simpl in *; [exact I|].
+    apply andb_true_iff in H as [H1 H2]. split; [apply gadm_b_sound; exact H1|apply IH; exact H2].
+  Qed.
+
   (* every reachable state of the system satisfies the invariant *)
   Theorem sys_safe gs : forall y, sys_inv y -> gadm_run y gs -> sys_inv (grun y gs).
   Proof.
@@ -598,25 +670,22 @@ Section NetSys.
     destruct Ha as [Ha1 Ha2]. unfold Net.grun. simpl. apply IH; [apply gstep_inv; assumption|exact Ha2].
   Qed.
 
-  (* the initial state: every node holds the genesis beacon only, nothing is on the wire *)
-  Definition init_sys (now : Z) (gs : list grp) : sys :=
-    mkSys now (map (fun g => mkS now [gen] [] 0 [] g None true) gs) [] [].
-
+  (* the initial state satisfies the invariant *)
   Lemma init_inv now gs : now_dom (c_genesis C) now ->
-    (forall g, In g gs -> g_poly g = P /\ g_thr g = t) -> sys_inv (init_sys now gs).
+    (forall g, In g gs -> okgrp thr_of g) -> sys_inv (init_sys gen now gs).
   Proof.
     intros Hn Hgs. split; [exact Hn|]. split; [|split].
     - apply Forall_forall. intros s Hs. apply in_map_iff in Hs as [g [<- Hgin]].
-      destruct (Hgs g Hgin) as [G1 G2]. unfold node_ok.
+      pose proof (Hgs g Hgin) as G1. unfold node_ok.
       cbn [s_now s_grp s_cache s_chain s_pending y_time y_known y_pool init_sys gp].
       split; [reflexivity|]. split.
       { unfold inv4. cbn [s_now s_cur s_timers]. split; [exact Hn|]. split; [|constructor].
         pose proof (current_round_ge_1 _ _ _ Hp Hg Hn). unfold cr. lia. }
-      split; [reflexivity|]. split; [exact G1|]. split; [exact G2|].
+      split; [split; cbn [s_grp s_pending]; [exact G1|intros ? ? E; discriminate]|].
       split; [intros e []|]. split; [intros b [<-|[]]; left; reflexivity|].
       split; [simpl; auto|]. split; [discriminate|reflexivity].
     - intros b [].
-    - intros r p sg [].
+    - intros r p sg P [].
   Qed.
 
   (* ---------- the properties, in every reachable state ---------- *)
@@ -626,7 +695,7 @@ Section NetSys.
   Theorem net_no_future y : sys_inv y ->
     (forall b, In b (y_known y) -> b_round b <= cr C (y_time y)) /\
     (forall s, In s (y_nodes y) -> forall b, In b (s_chain s) -> b_round b <= cr C (y_time y)) /\
-    (forall r p sg, In (r, p, sg) (y_pool y) -> vpart P r p sg = true -> ~ In (idx_of sg) F ->
+    (forall r p sg P, In (r, p, sg) (y_pool y) -> vpart P r p sg = true -> ~ In (idx_of sg) (F_of P) ->
        r <= cr C (y_time y)).
   Proof.
     intros Hi. split; [apply known_timely; exact Hi|]. split.
@@ -636,13 +705,13 @@ Section NetSys.
 
   (* C03: every beacon in an honest chain (beyond genesis) had valid partials of at least t
      distinct indices for exactly its round on the wire, at least t - |F| of them outside F *)
-  Definition honest_sig (x : Z) : bool := negb (existsb (Z.eqb (idx_of x)) F).
+  Definition honest_sig (P : Z) (x : Z) : bool := negb (existsb (Z.eqb (idx_of x)) (F_of P)).
 
-  Lemma honest_count I : NoDup (map idx_of I) ->
-    Z.of_nat (length I) - Z.of_nat (length F) <= Z.of_nat (length (filter honest_sig I)).
+  Lemma honest_count P I : NoDup (map idx_of I) ->
+    Z.of_nat (length I) - Z.of_nat (length (F_of P)) <= Z.of_nat (length (filter (honest_sig P) I)).
   Proof.
-    intros Hn. rewrite (filter_split_length honest_sig I) at 1.
-    assert (Hb : (length (filter (fun x => negb (honest_sig x)) I) <= length F)%nat).
+    intros Hn. rewrite (filter_split_length (honest_sig P) I) at 1.
+    assert (Hb : (length (filter (fun x => negb (honest_sig P x)) I) <= length (F_of P))%nat).
     { rewrite <- (map_length idx_of). apply NoDup_incl_length; [apply NoDup_map_filter; exact Hn|].
       intros i Hi. apply in_map_iff in Hi as [x [<- Hx]]. apply filter_In in Hx as [_ Hx].
       unfold honest_sig in Hx. rewrite negb_involutive in Hx. apply existsb_exists in Hx as [f [Hf E]].
@@ -652,16 +721,16 @@ Section NetSys.
 
   Theorem net_threshold y : sys_inv y ->
     forall s, In s (y_nodes y) -> forall b, In b (s_chain s) -> b <> gen ->
-    exists p I, NoDup (map idx_of I) /\ t <= Z.of_nat (length I) /\
+    exists P p I, NoDup (map idx_of I) /\ thr_of P <= Z.of_nat (length I) /\
       (forall x, In x I -> In (b_round b, p, x) (y_pool y) /\ vpart P (b_round b) p x = true) /\
-      t - Z.of_nat (length F) <= Z.of_nat (length (filter honest_sig I)).
+      thr_of P - Z.of_nat (length (F_of P)) <= Z.of_nat (length (filter (honest_sig P) I)).
   Proof.
     intros [_ [Hn [Hk _]]] s Hs b Hb Hne. rewrite Forall_forall in Hn.
-    destruct (Hn s Hs) as [_ [_ [_ [_ [_ [_ [N7 _]]]]]]].
+    destruct (Hn s Hs) as [_ [_ [_ [_ [N7 _]]]]].
     destruct (N7 b Hb) as [->|[b' [Hkb E]]]; [contradiction|].
-    destruct (Hk b' Hkb) as [p [I [Hnd [Ht Hx]]]]. rewrite E in Hx. exists p, I.
+    destruct (Hk b' Hkb) as [P [p [I [Hnd [Ht Hx]]]]]. rewrite E in Hx. exists P, p, I.
     split; [exact Hnd|]. split; [exact Ht|]. split; [exact Hx|].
-    pose proof (honest_count I Hnd). lia.
+    pose proof (honest_count P I Hnd). lia.
   Qed.
 
   (* ... stated over runs *)
@@ -669,17 +738,29 @@ Section NetSys.
     let y := grun y0 gs in
     (forall b, In b (y_known y) -> b_round b <= cr C (y_time y)) /\
     (forall s, In s (y_nodes y) -> forall b, In b (s_chain s) -> b_round b <= cr C (y_time y)) /\
-    (forall r p sg, In (r, p, sg) (y_pool y) -> vpart P r p sg = true -> ~ In (idx_of sg) F ->
+    (forall r p sg P, In (r, p, sg) (y_pool y) -> vpart P r p sg = true -> ~ In (idx_of sg) (F_of P) ->
        r <= cr C (y_time y)).
   Proof. intros Hi Ha. apply net_no_future. apply sys_safe; assumption. Qed.
 
   Theorem run_threshold y0 gs : sys_inv y0 -> gadm_run y0 gs ->
     let y := grun y0 gs in
     forall s, In s (y_nodes y) -> forall b, In b (s_chain s) -> b <> gen ->
-    exists p I, NoDup (map idx_of I) /\ t <= Z.of_nat (length I) /\
+    exists P p I, NoDup (map idx_of I) /\ thr_of P <= Z.of_nat (length I) /\
       (forall x, In x I -> In (b_round b, p, x) (y_pool y) /\ vpart P (b_round b) p x = true) /\
-      t - Z.of_nat (length F) <= Z.of_nat (length (filter honest_sig I)).
+      thr_of P - Z.of_nat (length (F_of P)) <= Z.of_nat (length (filter (honest_sig P) I)).
   Proof. intros Hi Ha. apply net_threshold. apply sys_safe; assumption. Qed.
+
+  (* C07: across any number of resharings every honest chain stays one valid chain from the one
+     genesis (no fork, no restart, no gap), and every node's live and pending groups carry the
+     threshold of their own sharing *)
+  Theorem run_continuity y0 gs : sys_inv y0 -> gadm_run y0 gs ->
+    let y := grun y0 gs in
+    forall s, In s (y_nodes y) ->
+      chain_ok C vrec (s_chain s) /\ genesis_of (s_chain s) = gen /\ grp_ok thr_of s.
+  Proof.
+    intros Hi Ha y s Hs. destruct (sys_safe gs y0 Hi Ha) as [_ [Hn _]]. rewrite Forall_forall in Hn.
+    destruct (Hn s Hs) as [_ [_ [G [_ [_ [Cc [_ Ge]]]]]]]. auto.
+  Qed.
 
   (* C02: any two honest nodes hold the same beacon for every round both hold *)
   Hypothesis vrec_unique : forall r p s1 s2, vrec r p s1 = true -> vrec r p s2 = true -> s1 = s2.
@@ -688,8 +769,8 @@ Section NetSys.
     forall b1 b2, In b1 (s_chain s1) -> In b2 (s_chain s2) -> b_round b1 = b_round b2 -> b1 = b2.
   Proof.
     intros [_ [Hn _]] s1 s2 H1 H2 b1 b2 Hb1 Hb2 Er. rewrite Forall_forall in Hn.
-    destruct (Hn s1 H1) as [_ [_ [_ [_ [_ [_ [_ [C1 [Ne1 G1]]]]]]]]].
-    destruct (Hn s2 H2) as [_ [_ [_ [_ [_ [_ [_ [C2 [Ne2 G2]]]]]]]]].
+    destruct (Hn s1 H1) as [_ [_ [_ [_ [_ [C1 [Ne1 G1]]]]]]].
+    destruct (Hn s2 H2) as [_ [_ [_ [_ [_ [C2 [Ne2 G2]]]]]]].
     pose proof (chain_ok_rounds C vrec _ C1 b1 Hb1) as Hr. rewrite G1, gen_round in Hr.
     apply (chains_agree C vrec vrec_unique (s_chain s1) (s_chain s2) C1 C2 Ne1 Ne2 (eq_trans G1 (eq_sym G2))
              (Z.to_nat (b_round b1)) b1 b2 Hb1 Hb2); [|auto].
